@@ -5,6 +5,7 @@ package main
 // initialisation of external packages (tables such as unicode/utf8's are package-level variables).
 
 import (
+	"strconv"
 	"math"
 	"fmt"
 	"go/types"
@@ -91,6 +92,7 @@ func init() {
 		"(*github.com/mattn/go-runewidth.Condition).CreateLUT": iCreateLUT,
 		"strconv.FormatFloat":                  iFormatFloat,
 		"strconv.AppendFloat":                  iAppendFloat,
+		"strconv.ParseFloat":                   iParseFloat,
 		"math.Abs":                             iMathFloat1,
 		"math.Floor":                           iMathFloat1,
 		"math.Ceil":                            iMathFloat1,
@@ -885,6 +887,18 @@ func iAppendFloat(in *Interp, fn *ssa.Function, a []Value) Value {
 		add[i] = b
 	}
 	return in.appendSlice(a[0].(SliceV), add, types.Typ[types.Uint8])
+}
+
+func iParseFloat(in *Interp, fn *ssa.Function, a []Value) Value {
+	cs, ok := concreteString(a[0].(StrV))
+	if !ok {
+		in.unsupported("strconv.ParseFloat of a symbolic string")
+	}
+	f, err := strconv.ParseFloat(cs, in.intOf(a[1], "ParseFloat bitSize"))
+	if err != nil {
+		return TupleV{&OpaqueV{kind: "float", data: f}, in.newError(in.mkStr(err.Error()))}
+	}
+	return TupleV{&OpaqueV{kind: "float", data: f}, errNilIface}
 }
 
 func iMathFloat1(in *Interp, fn *ssa.Function, a []Value) Value {
